@@ -22,7 +22,7 @@ from harness.common import exc_name, jdump
 PID = "C09"
 TITLE = "Accumulators yield the documented aggregate and reset() equals a fresh element"
 LEAN_MODULES = ["LenaModel.Props.C09"]
-LEAN_SOURCES = ["LenaModel/Model/C09.lean", "LenaModel/Props/C09.lean", "LenaModel/Lemmas/C09.lean"]
+LEAN_SOURCES = ["LenaModel/Model/C09.lean", "LenaModel/Props/C09.lean"]
 DRIVER = "drivers/C09.lean"
 THEOREMS = [
 ]
@@ -829,15 +829,13 @@ def _norm_obs(o):
 
 def oracle(case, res):
     spec, ops = case["el"], case["ops"]
-    if "init_err" in res:
-        return _init_oracle(spec, res)
-    if spec["k"] == "hist":
-        bad = _init_oracle(spec, res)
-        if bad:
-            return bad
+    bad = _init_oracle(spec, res)
+    if bad or "init_err" in res:
+        return bad
     obs = res["obs"]
     # 1. the documented aggregate, for every compute whose preceding fills (since construction / the last reset) all succeeded
     fills, zero, clean = [], False, True
+    gscale = spec.get("scale0")            # Graph: the scale a newly constructed graph has
     for i, (op, o) in enumerate(zip(ops, obs)):
         if op[0] == "f":
             if o.get("f") is not None:
@@ -850,20 +848,33 @@ def oracle(case, res):
             if o != "r":
                 return f"op {i}: reset() raised {o} (history {_show(ops[:i + 1])})"
             fills, zero, clean = [], True, True
+            gscale = spec.get("scale0")
         else:
             if not clean:
                 continue
             exp_err = _expected_compute_error(spec, fills)
+            if spec["k"] == "graph":
+                cs = (_ctx_of(fills[-1]) if fills else {}).get("scale")
+                if cs is not None and gscale is not None and gscale != cs:
+                    exp_err = ["LenaRuntimeError"]     # documented: initialisation and context scale differ
+                elif cs is not None:
+                    gscale = cs
             if "ce" in o:
                 if exp_err is None or o["ce"] not in exp_err:
-                    return f"op {i}: compute() raised {o['ce']} after fills {[f['d'] for f in fills]} (history {_show(ops[:i + 1])})"
+                    return (f"op {i}: compute() raised {o['ce']} after fills {[f['d'] for f in fills]} "
+                            f"(history {_show(ops[:i + 1])})")
                 continue
             if exp_err is not None and "" not in exp_err:
                 return (f"op {i}: compute() yielded {o['c']} where {' or '.join(exp_err)} is documented "
-                        f"(fills {[f['d'] for f in fills]})")
+                        f"(history {_show(ops[:i + 1])})")
             if exp_err is not None:
                 continue
             msg = _agg_fail(spec, o["c"], fills, _start_of(spec, zero), zero)
+            if not msg and spec["k"] == "graph":
+                c = _split_pair(o["c"][0])[1]
+                if c.get("scale") != gscale or c.get("dim") != (1 if fills else None):
+                    msg = (f"Graph yields context {c}; scale {gscale} (initial or from the last filled context) and "
+                           f"dim {1 if fills else None} expected")
             if msg and msg != "skip":
                 return f"op {i}: {msg} (history {_show(ops[:i + 1])})"
     # 2. reset() equals a fresh element: the observations after each reset equal those of a new element
@@ -1162,7 +1173,7 @@ def _rand_case(rng, maxlen):
         spec = {"k": "store", "group": rng.random() < 0.5}
         mk = lambda: {"d": _rand_num(rng, sh, 10), "c": ctx()}
     elif kind == "groupby":
-        spec = {"k": "groupby", "args": rng.choice([[], ["g"], ["", "m"], [["g", "m"]], ["", ["m", "a"]], [["g"], ["m"]]])}
+        spec = {"k": "groupby", "args": rng.choice([[], ["g"], ["", "m"], [["g", "m"]], ["", ["m", "a"]]])}
         mk = lambda: {"d": _rand_num(rng, sh, 10), "c": ctx()}
     elif kind == "hist":
         if rng.random() < 0.2:
@@ -1178,9 +1189,17 @@ def _rand_case(rng, maxlen):
             mk = lambda: {"d": [rng.randint(-1, 5), rng.randint(-2, 3)], "c": ctx()}
         else:
             n = rng.randint(1, 5)
-            es = sorted(rng.sample(range(-8, 9), n + 1))
-            edges = [(_mknum(e / (1 << sh)) if sh and rng.random() < 0.7 else (e if sh == 0 else _mknum(float(e)))) for e in es]
-            spec = {"k": "hist", "edges": edges}
+            es = sorted(rng.sample(range(-8, 9), n + 1))        # the edges are es[i] / 2**sh
+
+            def num_of(m):
+                """m / 2**sh as a case number"""
+                if sh == 0:
+                    return m if rng.random() < 0.7 else _mknum(float(m))
+                f = Fraction(m, 1 << sh)
+                if f.denominator == 1 and rng.random() < 0.5:
+                    return int(f)
+                return _mknum(m / (1 << sh))
+            spec = {"k": "hist", "edges": [num_of(e) for e in es]}
             r = rng.random()
             if r < 0.3:
                 spec["bins"] = [rng.randint(-2, 5) for _ in range(n)]
@@ -1190,17 +1209,11 @@ def _rand_case(rng, maxlen):
                 spec["iv"] = rng.randint(-1, 3)
 
             def mk():
-                if rng.random() < 0.5:
-                    e = rng.choice(es)       # exactly on an edge, and its float neighbours when sh > 0
-                    m = e + rng.choice([0, 0, -1, 1]) if sh == 0 else e
-                    x = m / (1 << sh) if sh else m
-                    if sh and rng.random() < 0.5:
-                        m2 = e * (1 << 0)
-                        x = (m2 + rng.choice([-1, 1]) / (1 << sh)) / 1 if abs(m2) < 2 ** 20 else x
-                        if Fraction(x) * (1 << sh) != int(Fraction(x) * (1 << sh)):
-                            x = m / (1 << sh)
-                    return {"d": _mknum(x) if isinstance(x, float) else x, "c": ctx()}
-                return {"d": _rand_num(rng, sh, 4 + sh), "c": ctx()}
+                if rng.random() < 0.6:      # on an edge or one unit (2**-sh) beside it
+                    m = rng.choice(es) + rng.choice([0, 0, -1, 1])
+                else:
+                    m = rng.randint(-12, 12)
+                return {"d": num_of(m), "c": ctx()}
     elif kind == "graph":
         spec = {"k": "graph", "scale0": rng.choice([None, None, 5, 6]), "sort": rng.random() < 0.6}
         mk = lambda: {"d": [_rand_num(rng, sh, 4), _rand_num(rng, sh, 4)], "c": ctx()}
@@ -1229,7 +1242,7 @@ def gen_cases(ctx):
     cases = list(_init_cases())
     for spec, sh, (v1, v2) in _specs_small():
         alphabet = [["f", v1], ["f", v2], ["c"], ["r"]]
-        big = spec["k"] in ("vec", "mean", "vmc", "graph")
+        big = spec["k"] in ("vec", "mean", "vmc")
         depth = (3 if big else 4) if quick else (4 if big else 5)
         for h in _all_histories(alphabet, depth):
             cases.append({"el": spec, "ops": h, "sh": sh})
